@@ -27,6 +27,7 @@ type Config struct {
 	Stubs      map[string]string // extra function stubs: full name -> kind ("noop", "poison")
 	ExtraAssume string
 	Guards       []Guard
+	MaxAlloc     int
 	NoIfConv     bool
 	NoWrapQuery  bool
 	SampleModels int                  // number of completed-path input models to record
@@ -515,7 +516,7 @@ func (in *Interp) concretize(st *State, t *Term, lo, hi int64) int64 {
 	if t.Hi != nil && t.Hi.IsInt() && t.Hi.Num().IsInt64() && t.Hi.Num().Int64() < hi {
 		hi = t.Hi.Num().Int64()
 	}
-	if hi-lo > 256 {
+	if hi-lo > 2048 {
 		panic(unsupported(fmt.Sprintf("concretization range too large [%d,%d] for %s", lo, hi, t)))
 	}
 	var cands []int64
